@@ -26,6 +26,11 @@ type ty struct {
 var localDecls = `
 type MyInt int
 type MyStr string
+type Labels map[string]string
+// aliases: of a defined type whose underlying type is nilable, of an instantiated library type, of a basic type
+type AliasLabels = Labels
+type AliasSeq = fp.Seq[string]
+type AliasInt = int
 type LocalIface interface{ Local() int }
 type localImpl int
 func (l localImpl) Local() int { return int(l) }
@@ -95,6 +100,15 @@ func namedTypes() []ty {
 		}},
 		{expr: "MyInt", kind: "named-local", jsonSafe: true, lit: func(t *rapid.T) string { return "MyInt(" + intLit(t) + ")" }},
 		{expr: "MyStr", kind: "named-local", jsonSafe: true, lit: func(t *rapid.T) string { return "MyStr(" + strLit(t) + ")" }},
+		// a field typed through an alias is what the aliased type is: a defined map or fp.Seq is a named type
+		// (never `omitempty` in the Mutable struct), an alias of int is int
+		{expr: "AliasLabels", kind: "named-local", jsonSafe: true, lit: func(t *rapid.T) string {
+			return rapid.SampledFrom([]string{"AliasLabels{}", `AliasLabels{"k": "v"}`, `Labels{"a": "", "b": "x"}`}).Draw(t, "aliasLabels")
+		}},
+		{expr: "AliasSeq", kind: "named-local", imports: []string{"github.com/csgura/fp"}, jsonSafe: true, lit: func(t *rapid.T) string {
+			return rapid.SampledFrom([]string{"AliasSeq{}", `AliasSeq{"a"}`, `fp.Seq[string]{"a", "b"}`}).Draw(t, "aliasSeq")
+		}},
+		{expr: "AliasInt", kind: "alias-basic", jsonSafe: true, lit: func(t *rapid.T) string { return intLit(t) }},
 		{expr: "rf.Type", kind: "named-import-alias", lit: func(t *rapid.T) string {
 			return rapid.SampledFrom([]string{"nil", "rf.TypeOf(1)", `rf.TypeOf("s")`}).Draw(t, "rftype")
 		}},
@@ -585,6 +599,11 @@ func drawStruct(t *rapid.T, idx int, exclFragile map[string]bool, forceJson bool
 				f.tag = fmt.Sprintf(`json:"c%d"`, i)
 			case 1:
 				f.tag = fmt.Sprintf(`bson:"b%d" json:"j%d,omitempty"`, i, i)
+				if strings.HasPrefix(f.t.expr, "Alias") {
+					// the alias types have empty non-nil values among their literals, which an explicit
+					// omitempty would drop (not faithful): no omitempty of the user's own on them
+					f.tag = fmt.Sprintf(`bson:"b%d" json:"j%d"`, i, i)
+				}
 			case 2:
 				f.tag = fmt.Sprintf(`yaml:"y%d"`, i)
 			}
